@@ -212,6 +212,22 @@ func run[E any, P fields.Ptr[E]](c *mon.Ctx, f *fields.Field[E, P]) {
 					}
 				}
 			}
+			// in-place forms (the receiver is an operand): a kernel that covers the tail with an overlapping block, or
+			// that reads an operand again after it stored part of the result, only differs from the portable loop here
+			if off <= 1 {
+				work := fenced(&regs, make([]E, n), atEnd)
+				rec(c, id("Add/res=a"), func() []byte { copy(work, a); f.VecAdd(work, work, b); return rawBytes(work) })
+				rec(c, id("Add/res=b"), func() []byte { copy(work, b); f.VecAdd(work, a, work); return rawBytes(work) })
+				rec(c, id("Add/res=a=b"), func() []byte { copy(work, a); f.VecAdd(work, work, work); return rawBytes(work) })
+				rec(c, id("Sub/res=a"), func() []byte { copy(work, a); f.VecSub(work, work, b); return rawBytes(work) })
+				rec(c, id("Sub/res=b"), func() []byte { copy(work, b); f.VecSub(work, a, work); return rawBytes(work) })
+				rec(c, id("Sub/res=a=b"), func() []byte { copy(work, a); f.VecSub(work, work, work); return rawBytes(work) })
+				rec(c, id("Mul/res=a"), func() []byte { copy(work, a); f.VecMul(work, work, b); return rawBytes(work) })
+				rec(c, id("Mul/res=b"), func() []byte { copy(work, b); f.VecMul(work, a, work); return rawBytes(work) })
+				rec(c, id("Mul/res=a=b"), func() []byte { copy(work, a); f.VecMul(work, work, work); return rawBytes(work) })
+				rec(c, id("ScalarMul/res=a"), func() []byte { copy(work, a); s := sc; f.VecScalarMul(work, work, &s); return rawBytes(work) })
+				rec(c, id("InnerProduct/a=b"), func() []byte { s := f.VecInnerProduct(a, a); return one(&s) })
+			}
 			rec(c, id("Sum"), func() []byte { s := f.VecSum(a); return one(&s) })
 			rec(c, id("InnerProduct"), func() []byte { s := f.VecInnerProduct(a, b); return one(&s) })
 			// length contract: operands of different lengths are refused (panic) by every implementation alike; a
